@@ -101,7 +101,8 @@ class CdefGen:
         r = self.rng
         out = []
         for i in range(r.choice([1, 2, 2, 3, 4, 5])):
-            fn = "f%d%s" % (i, "abc"[depth])
+            self.n += 1
+            fn = "f%d%s" % (self.n, "abc"[depth])
             k = r.random()
             if allow_bits and k < 0.15:
                 b, bits = r.choice(BITFIELD_BASES)
@@ -356,6 +357,9 @@ def finding_key(case, kind, info):
                 return x
             if ren and norm(d["c1"]) == d["c2"] and d["c1"] != d["c2"]:
                 return "typedef-tagged-struct-name"
+            anon = re.compile(r"(?<!typedef )\b(?:struct|union) \{")
+            if case.get("base") and anon.search(case["base"]) and anon.search(case["cdef"]):
+                return "include-anon-struct-name-clash"
         if d["cat"] == "const":
             try:
                 v, o = int(d["inline"]), int(d["ool"])
@@ -490,17 +494,26 @@ def eval_module(ctx, c, r, coq_rec, meta_rec, coq_int, meta_int):
     # ---- model of the record decoders vs what the implementation decoded (seen through list_types / relements)
     recs = r.get("records", {})
     td, st_, un = [sorted(x) for x in r["ool_list_types"]]
-    for j, x in enumerate(recs.get("_typenames", [])):
-        nm = td[j] if j < len(td) else "?"
-        coq_rec.append(("(0, %s)" % zl(x), cpair(zl(nm.encode()), "[]")))
+    # reference decoding by slicing (Python); it is tied to the implementation by the set comparison with the
+    # imported module's list_types() below, and the Coq model is compared with it record by record
+    ref_td, ref_st, ref_un = [], [], []
+    for x in recs.get("_typenames", []):
+        nm = bytes(x[4:])
+        ref_td.append(nm.decode())
+        coq_rec.append(("(0, %s)" % zl(x), cpair(zl(nm), "[]")))
         meta_rec.append((c, "typename", x))
-    names = sorted([(n, 0) for n in st_] + [(n, 1) for n in un])
-    for j, x in enumerate(recs.get("_struct_unions", [])):
+    for x in recs.get("_struct_unions", []):
         head = x[0]
-        nm, isun = names[j] if j < len(names) else ("?", 0)
+        nm = bytes(head[8:])
         flags = int.from_bytes(bytes(head[4:8]), "big")
-        coq_rec.append(("(1, %s)" % zl(head), cpair(zl(nm.encode()), zl([(flags & ~1) | isun]))))
+        (ref_un if flags & 1 else ref_st).append(nm.decode())
+        coq_rec.append(("(1, %s)" % zl(head), cpair(zl(nm), zl([flags]))))
         meta_rec.append((c, "struct", head))
+    vis = lambda l: sorted(n for n in l if not n.startswith("$"))
+    if (vis(ref_td), vis(ref_st), vis(ref_un)) != (vis(td), vis(st_), vis(un)):
+        ctx.mismatch(c, "records of the generated module name %r, the imported module lists %r" % (
+            (vis(ref_td), vis(ref_st), vis(ref_un)), (vis(td), vis(st_), vis(un))),
+            "names in the generated _typenames/_struct_unions records vs list_types() of the imported module")
     for x in recs.get("_enums", []):
         nm = bytes(x[8:]).split(b"\0")[0].decode()
         ens = r["enums"].get("enum " + nm)
@@ -509,7 +522,8 @@ def eval_module(ctx, c, r, coq_rec, meta_rec, coq_int, meta_int):
             ens = cand[0] if cand else None
         if ens is None:
             continue        # an enum that no declared name reaches (nothing observable to compare with)
-        coq_rec.append(("(2, %s)" % zl(x), cpair(zl(nm.encode()), zl(",".join(ens).encode()))))
+        # relements is filled from the last enumerator to the first (b_new_enum_type): declared order = reversed
+        coq_rec.append(("(2, %s)" % zl(x), cpair(zl(nm.encode()), zl(",".join(reversed(ens)).encode()))))
         meta_rec.append((c, "enum", x))
     # ---- model of ffiobj_init/realize_global_int on the emitted Python int vs the value the module returns
     for n, v1, v2, v3 in r.get("consts", []):
@@ -526,8 +540,17 @@ def evaluate(ctx, cases):
     ids = list(range(len(cases)))
     out, p = s.run_worker("c11_worker.py", dict(cases=cases, ids=ids, lib=lib), timeout=1500)
     if out is None:
-        ctx.violation(cases[0], "C11 worker failed: " + (p.stderr[-1500:] or p.stdout[-500:]))
-        return
+        # the process died (assert/abort/segfault in the backend): isolate the cases one by one
+        results = []
+        for i, c in zip(ids, cases):
+            o1, p1 = s.run_worker("c11_worker.py", dict(cases=[c], ids=[i], lib=lib), timeout=300)
+            if o1 is None:
+                tail = [l for l in p1.stderr.splitlines() if "Warning" not in l and "warnings.warn" not in l][-6:]
+                results.append(dict(worker_error="the interpreter died (rc=%s) while building/importing/using the "
+                                                 "module: %s" % (p1.returncode, " | ".join(tail)[-600:])))
+            else:
+                results.append(o1["results"][0])
+        out = dict(results=results)
     coq_rec, meta_rec, coq_int, meta_int = [], [], [], []
     for c, r in zip(cases, out["results"]):
         if "worker_error" in r:
